@@ -138,6 +138,52 @@ class Rule:
         return j[permtype] if res == "perm" else j
 
 
+class Conf:
+    """a configuration: DEFAULT_API = value, put in force either through `CONF["DEFAULT_API"] = value`
+    ("setitem": mutates the dict the singleton currently holds) or by giving the Configuration singleton a
+    DIFFERENT backing dict ("swap": Configuration.instance = {…}, what mock.patch.object(Configuration,
+    'instance', …) or an application installing its own settings does). Restored on exit."""
+
+    def __init__(self, androconf, how, value):
+        self.ac, self.how, self.value = androconf, how, value
+
+    def __enter__(self):
+        if self.how == "setitem":
+            self.old = self.ac.CONF["DEFAULT_API"]
+            self.ac.CONF["DEFAULT_API"] = self.value
+        else:
+            self.old = self.ac.Configuration.instance
+            self.ac.Configuration.instance = dict(self.old, DEFAULT_API=self.value)
+        return self
+
+    def __exit__(self, *a):
+        if self.how == "setitem":
+            self.ac.CONF["DEFAULT_API"] = self.old
+        else:
+            self.ac.Configuration.instance = self.old
+
+
+def configurations(ck, rule):
+    """(how, value): every available mapping level, levels without a mapping file, as int and as str, both ways"""
+    mapped = sorted(rule.maps)
+    unmapped = [min(rule.perm), max(mapped) + 1 if max(mapped) + 1 not in rule.maps else max(rule.perm), 20]
+    unmapped = [u for u in dict.fromkeys(unmapped) if u not in rule.maps]
+    vals = list(mapped) + unmapped + [str(mapped[len(mapped) // 2]), str(mapped[-1]), str(unmapped[0])]
+    return [(how, v) for v in vals for how in ("swap", "setitem")]
+
+
+def config_requests(ck, rule):
+    deep = (not ck.quick) or getattr(ck, "escalated", False)
+    ints = list(range(-5, 101)) if deep else sorted(set(range(-5, 101, 4)) | set(rule.maps) | {k + 1 for k in rule.maps} | {0, 20, 100})
+    out = [("map", None), ("perm", None)]
+    for n in ints:
+        out.append(("map", n))
+    for n in sorted(set(rule.maps) | {0, 15, 20, 26, 100}):
+        out.append(("map", str(n)))
+    out += [("perm", 0), ("perm", "0"), ("perm", 20)]
+    return out
+
+
 def requests(ck: Check):
     ints = list(range(-5, 101))
     extra = set()
@@ -157,7 +203,7 @@ def requests(ck: Check):
     return out
 
 
-def check_case(ck, real, rule, res, api, record=True):
+def check_case(ck, real, rule, res, api, record=True, config=None):
     """oracle on one request against the real code; returns (case-name, ok)"""
     n = rule.default if api is None else int(api)
     canon, ret = real.module(res, api)
@@ -167,8 +213,11 @@ def check_case(ck, real, rule, res, api, record=True):
     if not ok and record:
         what = {"perm": "permission data are not those of the level the fallback rule selects",
                 "map": "permission mapping is neither the requested level's nor the default level's"}[res]
-        ck.fail({"resource": RES[res], "api": api, "api_type": type(api).__name__}, what, None,
-                expected=f"{RES[res]}/permissions_{level}.json ({case})", observed=canon)
+        case_d = {"resource": RES[res], "api": api, "api_type": type(api).__name__}
+        if config is not None:
+            case_d["config"] = {"how": config[0], "DEFAULT_API": config[1], "type": type(config[1]).__name__}
+            what += f" (active configuration DEFAULT_API={config[1]!r}, set by {config[0]})"
+        ck.fail(case_d, what, None, expected=f"{RES[res]}/permissions_{level}.json ({case})", observed=canon)
     return case, ok, canon, level
 
 
@@ -181,7 +230,9 @@ def run(ck: Check):
     rule = Rule(REPO, default)
     ck.rule = ("every level -5..100 as int and as str for both resources, None, ±2^k, seeded integers up to 10^6 "
                "(thorough: -1000..1000 and 3000 more); distinct = distinct (resource, argument); "
-               "non-trivial = the requested level has no file (a fallback case)")
+               "non-trivial = the requested level has no file (a fallback case); configurations: the sweep (thinned in quick) is "
+               "repeated with DEFAULT_API = every mapping level, three levels without a mapping file, int and str, put in force both "
+               "through CONF[...] = x and by swapping the Configuration singleton's backing dict")
     # corpus first
     cdir = os.path.join(VERIF, "corpus", "C39")
     ncorp = 0
@@ -189,7 +240,12 @@ def run(ck: Check):
         c = json.load(open(p))
         res = {v: k for k, v in RES.items()}[c["resource"]]
         api = c["api"]
-        check_case(ck, real, rule, res, api)
+        if c.get("config"):
+            cfg = (c["config"]["how"], c["config"]["DEFAULT_API"])
+            with Conf(real.androconf, *cfg):
+                check_case(ck, real, Rule(REPO, int(cfg[1])), res, api, config=cfg)
+        else:
+            check_case(ck, real, rule, res, api)
         ncorp += 1
     reqs = requests(ck)
     lines, reals, dist, nontrivial = [], [], {}, []
@@ -218,10 +274,31 @@ def run(ck: Check):
             ck.fail({"resource": "aosp_permissions", "api": n, "api_type": "int", "permtype": "groups"},
                     "permission groups are not those of the level the fallback rule selects", None,
                     expected=f"permissions_{level}.json ({case})", observed=canon)
+    # the configurations dimension: the same rule under other active DEFAULT_API values
+    clines, creals, nconf = [], [], 0
+    confs = configurations(ck, rule)
+    creqs = config_requests(ck, rule)
+    for how, value in confs:
+        crule = Rule(REPO, int(value))
+        with Conf(real.androconf, how, value):
+            for res, api in creqs:
+                case, ok, canon, level = check_case(ck, real, crule, res, api, config=(how, value))
+                clines.append(f"cmodule {int(value)} {res} {token(api)}")
+                creals.append(canon)
+                if case != "exact":
+                    nontrivial.append((res, token(api), how, str(value)))
+                key = f"conf:{how}:{res}:{case}"
+                dist[key] = dist.get(key, 0) + 1
+        nconf += 1
+    if real.androconf.CONF["DEFAULT_API"] != default or real.androconf.Configuration.instance is not real.androconf.default_conf:
+        ck.notes.append("configuration was not restored after the sweep (harness defect)")
+    if samples is not None and clines:
+        samples.append({"request": clines[len(clines) // 2], "real": creals[len(clines) // 2], "configuration": list(map(str, confs[len(confs) // 2]))})
     drv = Driver("drv_C39")
     model = drv.ask(lines)
     ck.compare("apilevel", lines, reals, model)
-    ck.cover(evaluations=len(reqs) + 3 * len(direct) + ncorp, distinct=nontrivial, samples=samples,
+    ck.compare("apilevel-config", clines, creals, drv.ask(clines))
+    ck.cover(evaluations=len(reqs) + 3 * len(direct) + ncorp + len(clines), distinct=nontrivial, samples=samples,
              dist=dict(dist, corpus=ncorp, direct_loader_levels=len(direct)))
     ck.assumptions.append("os.listdir/os.path.isfile/json.load and str()/int() on decimal strings are modelled, not verified "
                           "(directory listing regenerated each run; int(str(n)) = n is Int.toInt?_repr in the model)")
@@ -242,6 +319,11 @@ def replay(ck: Check, rp):
         return 0
     res = {v: k for k, v in RES.items()}[c["resource"]]
     api = c["api"]
-    case, ok, canon, level = check_case(ck, real, rule, res, api, record=False)
+    if c.get("config"):
+        cfg = (c["config"]["how"], c["config"]["DEFAULT_API"])
+        with Conf(real.androconf, *cfg):
+            case, ok, canon, level = check_case(ck, real, Rule(REPO, int(cfg[1])), res, api, record=False)
+    else:
+        case, ok, canon, level = check_case(ck, real, rule, res, api, record=False)
     print(f"replay {c}: real -> {canon}; rule -> permissions_{level}.json ({case}); {'ok' if ok else 'FAILS'}")
     return 0 if ok else 1
